@@ -61,6 +61,31 @@ def gen_case(rng, k, prop):
         else:
             sc = g._emit(("bin", "sub", g.pick_nonconst(), m))
         root = g._emit(("bin", rng.choice(["add", "add", "max", "mul"]), root, sc))
+    # apply / remap gadget: an apply whose BODY mentions no coordinate (a function of the free variable only) while
+    # the substituted VALUE does, followed by a non-identity remap — the coordinates reach the result only through
+    # the value, so whatever decides "nothing to remap here" must look at the value as well
+    if rng.random() < 0.3:
+        if not g.vars:
+            g.vars.append(g._emit(("var",)))
+        v = rng.choice(g.vars)
+        X, Y, Z = 0, 1, 2
+        bk = rng.choice(["affine", "square", "two"])
+        if bk == "affine":
+            body = g._emit(("bin", "add", g._emit(("bin", "mul", g.const(2.0), v)), g.const(1.0)))
+        elif bk == "square":
+            body = g._emit(("bin", "mul", v, v))
+        else:
+            body = g._emit(("bin", "sub", v, g.const(rng.choice([3.0, -0.5]))))
+        val = g._emit(("bin", "add", rng.choice([X, Y, Z]), g._emit(("bin", "mul", rng.choice([X, Y, Z]), g.const(rng.choice([0.5, -2.0]))))))
+        node = g._emit(("apply", body, v, val))
+        if rng.random() < 0.3:
+            node = g._emit(("un", "neg", node))
+        if rng.random() < 0.3 and len(g.vars) > 1:
+            w = rng.choice([u for u in g.vars if u != v])
+            node = g._emit(("apply", g._emit(("bin", "add", node, w)), w, g._emit(("bin", "mul", Z, g.const(3.0)))))
+        cx = g._emit(("bin", "mul", Y, g.const(3.0)))
+        rm = g._emit(("remap", node, cx, Z, X)) if rng.random() < 0.7 else g._emit(("remap", node, Y, X, Z))
+        root = g._emit(("bin", rng.choice(["add", "max", "min"]), root, rm))
     L = ["case %d" % k] + g.lines
     nid = g.next
     ids = {"root": root}
